@@ -277,7 +277,10 @@ class FnTerms:
         if k == "deref":
             return mk_deref(t)
         if k == "field":
-            return mk_field(t, e.get("name", e["i"]), e["i"])
+            r = mk_field(t, e.get("name", e["i"]), e["i"])
+            if r[0] == "payload" and r[2][0] == "phi" and r[2][1] == self.path:
+                r = self._payload_of_join(r)
+            return r
         if k == "index":
             return ("index", t, self.local_at(e["local"], b, pos))
         if k == "cindex":
@@ -285,6 +288,33 @@ class FnTerms:
         if k == "downcast":
             return ("downcast", t, e["variant"])
         return ("proj", t, k)
+
+    def _payload_of_join(self, r):
+        """payload(V, phi[...]) where exactly one joined value is a V(..) constructor and every other one is a constructor
+        of a different variant (or a propagated error): the payload can only be that constructor's operand.  This is
+        what `match helper() { Ok(x) => .. }` looks like once the helper's body has been spliced in."""
+        var = r[1]
+        leaves, seen, st = [], set(), [r[2]]
+        while st:
+            x = st.pop()
+            if x in seen:
+                continue
+            seen.add(x)
+            if x[0] == "phi" and x[1] == self.path:
+                if len(seen) > 64:
+                    return r
+                st.extend(self.phi_operands(x).values())
+            else:
+                leaves.append(x)
+        cands = [l for l in leaves if l[0] == "agg" and l[1] == "adt" and l[2].endswith("::" + var)]
+
+        def other_variant(l):
+            if l[0] == "agg" and l[1] == "adt" and l[2].rsplit("::", 1)[-1] in ("Ok", "Err", "Some", "None"):
+                return not l[2].endswith("::" + var)
+            return l[0] == "call" and isinstance(l[1], str) and l[1].endswith("::from_residual") and var in ("Ok", "Some")
+        if len(cands) == 1 and len(cands[0][3]) == 1 and all(other_variant(l) for l in leaves if l is not cands[0]):
+            return cands[0][3][0]
+        return r
 
     def operand(self, op, b, pos):
         k = op["k"]
